@@ -230,6 +230,20 @@ class Roles:
                                 break
             c = list({id(f): f for f in c}.values())
             if len(c) != 1:
+                # syntactic fallback: the method with an `if` over the measured vector whose branch throws (a disjunctive or
+                # otherwise weakened condition is not a dominating guard any more, but it is still this function's test —
+                # the property checks then judge the condition)
+                c = []
+                for f in self.sim_methods():
+                    if not f.body:
+                        continue
+                    for i_ in SX.walk(f.body, into_lambdas=False):
+                        if i_['k'] == 'if' and any(x['k'] == 'member' and x['name'] == mf for x in SX.walk(i_.get('c'))) and \
+                                any(x['k'] == 'throw' for x in SX.walk(i_.get('t'))):
+                            c.append(f)
+                            break
+                c = list({id(f): f for f in c}.values())
+            if len(c) != 1:
                 raise AnalysisBroken('simulator ensure-active function not resolved (%d)' % len(c))
             return c[0]
         return self._memo('simensure', find)
